@@ -22,9 +22,29 @@ Consequences:
     is-or-may-be the array `self.r`.  `updInplaceGuard` is the (integer part of the) path condition under which
     `_update` updates `self.r` / `self.p` in place; Props proves it false whenever `alias` holds.
   * `initXIsCaller` / `updXIsCaller`: `self.x` is the caller's array and is never rebound.
+Harmless spellings are NORMALISED before a definition is emitted (so a behaviour-preserving refactoring of these
+methods regenerates the same definition, or one that differs by `let`s only, and the theorems keep checking):
+  * a call to a PRIVATE helper defined in the same file - `self._name(...)` (a method of ConjugateGradient or Alg
+    other than the entry points) or `_name(...)` (module level) - is replaced by the helper's body with the
+    parameters bound to the arguments (objects by reference, so `return r` keeps the aliasing); as a statement or a
+    whole right-hand side any helper of the subset may be inlined, nested inside an expression only a helper without
+    stores, and under `or` / `and` / a conditional expression only one without operator applications; recursion is
+    outside the subset; further methods of the class must be private and override nothing of Alg;
+  * positional / keyword arguments of `util.axpy`, `util.xpay`, `Alg.__init__` and of helpers are resolved against
+    the callee's signature (sigpy/util.py is parsed for the first two); an unknown, repeated or missing argument, `*` /
+    `**`, or a reordering that would change the order in which operators are applied is outside the subset;
+  * local integer / Boolean temporaries and an un-`real`-ed `xp.vdot(u, v)` are inlined; `xp.vdot(u, v).real` is
+    `xp.real(xp.vdot(u, v))`; `t = a if c else b` is the `if` statement;
+  * integer expressions are linear forms and integer comparisons are `D > 0` / `D >= 0` / `D = 0` rendered
+    canonically (`self.max_iter - 1 > self.iter`, `self.iter + 1 < self.max_iter`, `self.iter <= self.max_iter - 2`
+    all give `s.iter < (max_iter - 1)`); Booleans are and / or / not trees with negations pushed to the leaves (De
+    Morgan); `if not c: A else: B` is `if c: B else: A` (an `if` on an integer comparison is emitted on its strict
+    form); in `_done` an if / elif / else chain of Boolean returns is the corresponding `or` / `and` chain;
+    `0 >= s` is `s <= 0`, `tol >= sqrt` is `sqrt <= tol` (but `pAp > 0` is NOT `not (pAp <= 0)`: NaN).
 Everything else (an unknown statement kind, call, operator, attribute, comparison such as `pAp < 0`, a
-`vdot` without `real`, reading an attribute that is not part of the modelled state, dead code after
-`return`, a changed method set or base class) raises `Unsupported` = a broken `translate:` obligation.
+`vdot` of which the real part is not taken, reading an attribute that is not part of the modelled state, dead code
+after `return`, a public or overriding extra method, a changed base class) raises `Unsupported` = a broken
+`translate:` obligation.
 """
 import ast
 import re
@@ -32,7 +52,7 @@ import re
 from harness.translate import py2lean as T
 from harness.translate import gen as G
 
-V, S, I, B, F, OF, SQ = "V", "S", "Int", "Bool", "V → V", "Option (V → V)", "sqrt S"
+V, S, I, B, F, OF, SQ, CX = "V", "S", "Int", "Bool", "V → V", "Option (V → V)", "sqrt S", "complex scalar"
 STATE_FIELDS = ["x", "r", "p", "rzold", "resid2", "npd", "iter", "alias"]
 CONSTS = {"self.A": ("A", F), "self.P": ("P", OF), "self.max_iter": ("max_iter", I), "self.tol": ("tol", S),
           "self.b": ("b", V)}
@@ -50,11 +70,141 @@ def key(e):
     return None
 
 
-class Val:
-    """a value: Lean term + type; vectors live in the heap (obj = object id)"""
+# ---------------------------------------------------------------------------------------------------
+# normal forms.  Integers are LINEAR FORMS over atoms (`max_iter`, `s.iter`, a let-bound name, a non-linear
+# product), Booleans are trees of and / or / not over opaque atoms and integer comparisons `D > 0` / `D >= 0` /
+# `D = 0` / `D != 0` (D a linear form).  Both are rendered canonically, so that commuted / re-associated integer
+# expressions (`self.max_iter - 1` / `-1 + self.max_iter`), commuted or shifted comparisons
+# (`self.iter < self.max_iter - 1` / `self.max_iter - 1 > self.iter` / `self.iter + 1 < self.max_iter` /
+# `self.iter <= self.max_iter - 2`), negated guards with swapped branches and De Morgan variants give the SAME
+# generated text, while a changed constant, operand or comparison direction gives a different one.
+# ---------------------------------------------------------------------------------------------------
+def lin_add(a, b, sb=1):
+    d = dict(a[0])
+    for k, c in b[0].items():
+        d[k] = d.get(k, 0) + sb * c
+    return ({k: c for k, c in d.items() if c != 0}, a[1] + sb * b[1])
 
-    def __init__(self, typ, term=None, obj=None):
-        self.typ, self.term, self.obj = typ, term, obj
+
+def lin_scale(a, k):
+    return ({x: c * k for x, c in a[0].items() if c * k != 0}, a[1] * k)
+
+
+def lin_mul(a, b):
+    if not a[0]:
+        return lin_scale(b, a[1])
+    if not b[0]:
+        return lin_scale(a, b[1])
+    return ({"(%s)" % " * ".join(sorted([render_lin(a), render_lin(b)])): 1}, 0)
+
+
+def render_lin(l, paren=True):
+    d, c0 = l
+    pos = sorted(k for k, c in d.items() if c > 0)
+    neg = sorted(k for k, c in d.items() if c < 0)
+    out = ""
+    for k in pos + neg:
+        c = d[k]
+        mag = k if abs(c) == 1 else "%d * %s" % (abs(c), k)
+        if not out:
+            out = mag if c > 0 else "-" + mag
+        else:
+            out += (" + " if c > 0 else " - ") + mag
+    if not out:
+        return "%d" % c0 if c0 >= 0 else "(%d)" % c0
+    if c0:
+        out += (" + %d" % c0) if c0 > 0 else (" - %d" % -c0)
+    simple = len(d) == 1 and c0 == 0 and list(d.values()) == [1]
+    return out if simple or not paren else "(" + out + ")"
+
+
+def cmp_node(kind, D):
+    """canonical comparison node: kind in '<' (D > 0), '≤' (D >= 0), '=' (D = 0), '≠'"""
+    if kind == "<" and abs(D[1] - 1) < abs(D[1]):
+        kind, D = "≤", (D[0], D[1] - 1)
+    elif kind == "≤" and abs(D[1] + 1) < abs(D[1]):
+        kind, D = "<", (D[0], D[1] + 1)
+    elif kind in ("=", "≠"):
+        ks = sorted(D[0])
+        if (ks and D[0][ks[-1]] > 0) or (not ks and D[1] < 0):
+            D = lin_scale(D, -1)
+    return ("cmp", kind, D)
+
+
+def render_cmp(n):
+    """`left op right` with the (lexicographically last) principal atom on the left"""
+    _, kind, D = n
+    d, c0 = D
+    if not d:
+        return "0 %s %d" % (kind, c0) if c0 >= 0 else "0 %s (%d)" % (kind, c0)
+    lead = d[sorted(d)[-1]]
+    neg = ({k: -c for k, c in d.items() if c < 0}, 0)
+    pos = ({k: c for k, c in d.items() if c > 0}, 0)
+    if lead < 0:      # neg atoms  op  pos atoms + c0
+        return "%s %s %s" % (render_lin(neg), kind, render_lin((pos[0], c0)))
+    op = {"<": ">", "≤": "≥"}.get(kind, kind)
+    return "%s %s %s" % (render_lin(pos), op, render_lin((neg[0], -c0)))
+
+
+def b_not(n):
+    t = n[0]
+    if t == "const":
+        return ("const", not n[1])
+    if t == "atom":
+        return ("not", n)
+    if t == "not":
+        return n[1]
+    if t == "cmp":
+        _, kind, D = n
+        if kind == "<":      # not (D > 0)  <->  -D >= 0
+            return cmp_node("≤", lin_scale(D, -1))
+        if kind == "≤":      # not (D >= 0) <->  -D > 0
+            return cmp_node("<", lin_scale(D, -1))
+        return cmp_node("≠" if kind == "=" else "=", D)
+    return b_join("or" if t == "and" else "and", [b_not(x) for x in n[1]])
+
+
+def b_join(op, nodes):
+    out = []
+    for x in nodes:
+        out.extend(x[1] if x[0] == op else [x])
+    return (op, out)
+
+
+def render_b(n):
+    t = n[0]
+    if t == "const":
+        return "true" if n[1] else "false"
+    if t == "atom":
+        return n[1]
+    if t == "not":
+        return "(!%s)" % render_b(n[1])
+    if t == "cmp":
+        return "decide (%s)" % render_cmp(n)
+    return "(" + (" && " if t == "and" else " || ").join(render_b(x) for x in n[1]) + ")"
+
+
+def b_int_only(n):
+    """a condition over the counter and the budget only (recorded as a path condition)"""
+    if n[0] == "cmp":
+        return set(n[2][0]) <= {"s.iter", "max_iter"}
+    return n[0] in ("and", "or") and all(b_int_only(x) for x in n[1])
+
+
+class Val:
+    """a value: Lean term + type; vectors live in the heap (obj = object id); integers carry their linear form,
+    Booleans their tree, an un-`real`-ed `xp.vdot(u, v)` (type C) the pair of operand terms"""
+
+    def __init__(self, typ, term=None, obj=None, lin=None, bt=None, pair=None):
+        if typ == I:
+            if lin is None:
+                lin = ({}, int(term)) if re.fullmatch(r"\d+", term) else ({term: 1}, 0)
+            term = render_lin(lin)
+        if typ == B:
+            if bt is None:
+                bt = ("const", term == "true") if term in ("true", "false") else ("atom", term)
+            term = render_b(bt)
+        self.typ, self.term, self.obj, self.lin, self.bt, self.pair = typ, term, obj, lin, bt, pair
 
 
 class Obj:
@@ -71,13 +221,14 @@ class Env:
         self.psome = None         # None: unknown, True: inside `self.P is not None`, False: inside `is None`
         self.path = []            # integer-only path conditions (Lean Bool terms over `s.iter`, `max_iter`)
         self.lines = None
+        self.frames = []          # inlined helper calls being executed: (name, caller's locals, on_return)
         self.sh = shared          # counters / collected facts shared by all branches
 
     def copy(self):
         e = Env(self.sh)
         e.vars = dict(self.vars)
         e.heap = {k: Obj(o.term, o.origin, o.may_be) for k, o in self.heap.items()}
-        e.psome, e.path = self.psome, list(self.path)
+        e.psome, e.path, e.frames = self.psome, list(self.path), list(self.frames)
         return e
 
     def new_obj(self, term, origin, may_be=None):
@@ -95,11 +246,12 @@ class Env:
 class Exec:
     """symbolic execution of one method body"""
 
-    def __init__(self, tree, method, leaf):
+    def __init__(self, tree, method, leaf, world=None):
         self.tree = tree
+        self.w = world or {}      # 'cls' / 'alg': the two ClassDefs, 'util': the ast of sigpy/util.py
         self.method = method
         self.leaf = leaf          # env -> Lean term of the result at a fall-through / return
-        self.shared = {"nobj": 0, "names": {}, "inplace": [], "x_rebound": False, "leaves": 0}
+        self.shared = {"nobj": 0, "names": {}, "inplace": [], "x_rebound": False, "leaves": 0, "bnodes": {}, "nh": 0}
 
     # ---------------- expressions ----------------
     def vec(self, env, v):
@@ -110,6 +262,8 @@ class Exec:
             return self.vec(env, v)
         if v.typ == SQ:
             raise U("a square root used as a number (only `<sqrt> <= tol` is modelled)")
+        if v.typ == CX:
+            raise U("a vdot used without taking its real part")
         return v.term
 
     def ev(self, env, e):
@@ -123,16 +277,16 @@ class Exec:
             if isinstance(e.value, bool):
                 return Val(B, "true" if e.value else "false")
             if isinstance(e.value, int):
-                return Val(I, "%d" % e.value if e.value >= 0 else "(%d)" % e.value)
+                return Val(I, lin=({}, e.value))
             raise U("constant %r" % (e.value,))
         if isinstance(e, ast.UnaryOp):
             a = self.ev(env, e.operand)
             if isinstance(e.op, ast.USub) and a.typ == S:
                 return Val(S, "(o.neg %s)" % a.term)
             if isinstance(e.op, ast.USub) and a.typ == I:
-                return Val(I, "(-%s)" % a.term)
+                return Val(I, lin=lin_scale(a.lin, -1))
             if isinstance(e.op, ast.Not) and a.typ == B:
-                return Val(B, "(!%s)" % a.term)
+                return Val(B, bt=b_not(a.bt))
             raise U("unary %s on %s" % (type(e.op).__name__, a.typ))
         if isinstance(e, ast.BinOp):
             return self.binop(env, e)
@@ -144,8 +298,12 @@ class Exec:
             vals = [self.ev(env, x) for x in e.values]
             if any(v.typ != B for v in vals):
                 raise U("and/or of non-Boolean operands in %s" % ast.unparse(e))
-            op = " || " if isinstance(e.op, ast.Or) else " && "
-            return Val(B, "(" + op.join(v.term for v in vals) + ")")
+            return Val(B, bt=b_join("or" if isinstance(e.op, ast.Or) else "and", [v.bt for v in vals]))
+        if isinstance(e, ast.Attribute) and e.attr == "real":      # xp.vdot(u, v).real  ==  xp.real(xp.vdot(u, v))
+            a = self.ev(env, e.value)
+            if a.typ == CX:
+                return Val(S, "(o.rdot %s %s)" % a.pair)
+            raise U("`.real` of a %s" % a.typ)
         raise U("expression %s" % ast.unparse(e)[:80])
 
     def scaled(self, env, e):
@@ -183,13 +341,128 @@ class Exec:
         if isinstance(e.op, ast.Div) and a.typ == S and b.typ == S:
             return Val(S, "(o.div %s %s)" % (a.term, b.term))
         if a.typ == I and b.typ == I and isinstance(e.op, (ast.Add, ast.Sub, ast.Mult)):
-            return Val(I, "(%s %s %s)" % (a.term, {ast.Add: "+", ast.Sub: "-", ast.Mult: "*"}[type(e.op)], b.term))
+            if isinstance(e.op, ast.Mult):
+                return Val(I, lin=lin_mul(a.lin, b.lin))
+            return Val(I, lin=lin_add(a.lin, b.lin, 1 if isinstance(e.op, ast.Add) else -1))
         raise U("operator %s on %s and %s in `%s` (not an operation of C12.Ops)" % (type(e.op).__name__, a.typ, b.typ, ast.unparse(e)))
 
+    # ---------------- calls ----------------
+    def helper(self, env, f):
+        """the FunctionDef a call `self._name(...)` / `_name(...)` refers to when it is a private method of
+        ConjugateGradient / Alg or a private module-level function of sigpy/alg.py -> (def, is_method) or None"""
+        if isinstance(f, ast.Attribute) and isinstance(f.value, ast.Name) and f.value.id == "self":
+            n = f.attr
+            if not n.startswith("_") or n.startswith("__") or n in ("_update", "_done"):
+                return None
+            for c in (self.w.get("cls"), self.w.get("alg")):
+                for m in (c.body if c is not None else []):
+                    if isinstance(m, ast.FunctionDef) and m.name == n:
+                        return m, True
+            return None
+        if isinstance(f, ast.Name) and f.id.startswith("_") and not f.id.startswith("__") and f.id not in env.vars:
+            defs = [m for m in self.tree.body if isinstance(m, ast.FunctionDef) and m.name == f.id]
+            bound = [n for m in self.tree.body if not isinstance(m, (ast.FunctionDef, ast.ClassDef)) for n in ast.walk(m)
+                     if isinstance(n, ast.Name) and n.id == f.id and isinstance(n.ctx, ast.Store)]
+            if len(defs) > 1 or (defs and bound):
+                raise U("module-level name %s is bound more than once" % f.id)
+            if defs:
+                return defs[0], False
+        return None
+
+    def is_pure(self, fn, seen=()):
+        """no store other than to a local name, no statement-level call, no in-place operator, only pure helpers"""
+        if fn.name in seen:
+            return False
+        for n in ast.walk(fn):
+            if isinstance(n, (ast.AugAssign, ast.AnnAssign, ast.Delete, ast.Global, ast.Nonlocal, ast.NamedExpr,
+                              ast.For, ast.While, ast.Try, ast.Raise, ast.FunctionDef, ast.Lambda)) and n is not fn:
+                return False
+            if isinstance(n, ast.Assign) and not all(isinstance(t, ast.Name) for t in n.targets):
+                return False
+            if isinstance(n, ast.Expr) and not (isinstance(n.value, ast.Constant) and isinstance(n.value.value, str)):
+                return False
+            if isinstance(n, ast.Call):
+                h = self.helper(Env(self.shared), n.func)
+                if h is not None and not self.is_pure(h[0], seen + (fn.name,)):
+                    return False
+        return True
+
+    def is_simple(self, fn):
+        """pure and without calls to the operators (may be evaluated speculatively: hoisted out of `or` / `and`)"""
+        if not self.is_pure(fn):
+            return False
+        for n in ast.walk(fn):
+            if isinstance(n, ast.Call):
+                f = n.func
+                if not (isinstance(f, ast.Attribute) and (f.attr in ("item", "copy") or ast.unparse(f.value) == "xp")):
+                    return False
+        return True
+
+    def resolve(self, call, fn, is_method, what):
+        """argument expressions of `call` in the order of the callee's parameters (positional and keyword
+        arguments resolved against the signature of `fn`); fail-closed on anything irregular"""
+        a = fn.args
+        if a.vararg or a.kwarg or a.kwonlyargs or fn.decorator_list:
+            raise U("%s: signature of %s" % (what, fn.name))
+        params = [x.arg for x in a.posonlyargs + a.args]
+        if is_method:
+            if params[:1] != ["self"]:
+                raise U("%s: %s is not an ordinary method" % (what, fn.name))
+            params = params[1:]
+        if len(set(params)) != len(params) or any(isinstance(x, ast.Starred) for x in call.args) or len(call.args) > len(params):
+            raise U("%s: arguments of %s" % (what, ast.unparse(call)[:60]))
+        got = dict(zip(params, call.args))
+        order = list(params[:len(call.args)])
+        ponly = set(x.arg for x in a.posonlyargs)
+        for kw in call.keywords:
+            if kw.arg is None or kw.arg not in params or kw.arg in got or kw.arg in ponly:
+                raise U("%s: keyword argument %s of %s" % (what, kw.arg, ast.unparse(call)[:60]))
+            got[kw.arg] = kw.value
+            order.append(kw.arg)
+        ndef = len(a.defaults)
+        for i, pn in enumerate(params):
+            if pn not in got:
+                j = i - (len(params) - ndef)
+                if j < 0 or not isinstance(a.defaults[j], ast.Constant) or not isinstance(a.defaults[j].value, (bool, int)):
+                    raise U("%s: parameter %s of %s is not supplied" % (what, pn, fn.name))
+                got[pn] = a.defaults[j]
+        if order != params[:len(order)]:
+            # Python evaluates the arguments in source order: harmless only if no operator / helper is applied in them
+            for pn in order:
+                if any(isinstance(n, ast.Call) and not (isinstance(n.func, ast.Attribute) and (
+                        n.func.attr in ("item", "copy", "real", "vdot"))) for n in ast.walk(got[pn])):
+                    raise U("%s: keyword arguments of %s are evaluated in a different order" % (what, ast.unparse(call)[:60]))
+        return params, [got[pn] for pn in params]
+
+    def inline_call(self, call, h, env, on_return, what):
+        """the body of the private helper with its parameters bound to the arguments, followed by
+        `on_return(env, value-or-None)`; recursion is outside the subset"""
+        fn, is_method = h
+        if any(fr[0] == fn.name for fr in env.frames) or len(env.frames) >= 6:
+            raise U("%s: recursive helper %s" % (what, fn.name))
+        params, exprs = self.resolve(call, fn, is_method, what)
+        vals = [self.ev(env, x) for x in exprs]
+        saved = {kk: v for kk, v in env.vars.items() if not kk.startswith("self.") and not kk.startswith("$")}
+        for kk in saved:
+            del env.vars[kk]
+        for pn, v in zip(params, vals):
+            env.vars[pn] = v
+        env.frames.append((fn.name, saved, on_return))
+        return self.block(list(fn.body), env, lambda e: self.leave(e, None))
+
+    def leave(self, env, v):
+        name, saved, on_return = env.frames.pop()
+        for kk in [kk for kk in env.vars if not kk.startswith("self.") and not kk.startswith("$")]:
+            del env.vars[kk]
+        env.vars.update(saved)
+        return on_return(env, v)
+
     def call(self, env, e):
+        f = e.func
+        if self.helper(env, f) is not None:
+            raise U("helper call %s in a position it cannot be inlined from" % ast.unparse(e)[:60])
         if e.keywords:
             raise U("keyword arguments in %s" % ast.unparse(e))
-        f = e.func
         # x.copy(): a fresh object with the same contents;  s.item(): the scalar itself
         if isinstance(f, ast.Attribute) and f.attr in ("copy", "item") and not e.args and key(f) is None:
             a = self.ev(env, f.value)
@@ -198,15 +471,16 @@ class Exec:
             if f.attr == "item" and a.typ == S:
                 return a
             raise U("%s of a %s" % (f.attr, a.typ))
-        # xp.real(xp.vdot(a, b))
+        # xp.vdot(a, b) is a complex scalar of which only the real part may be used: xp.real(·) / ·.real
         if isinstance(f, ast.Attribute) and isinstance(f.value, ast.Name) and f.value.id == "xp":
+            if f.attr == "vdot" and len(e.args) == 2:
+                a, b = self.ev(env, e.args[0]), self.ev(env, e.args[1])
+                if a.typ == V and b.typ == V:
+                    return Val(CX, pair=(self.vec(env, a), self.vec(env, b)))
             if f.attr == "real" and len(e.args) == 1:
-                g = e.args[0]
-                if isinstance(g, ast.Call) and isinstance(g.func, ast.Attribute) and isinstance(g.func.value, ast.Name) \
-                        and g.func.value.id == "xp" and g.func.attr == "vdot" and len(g.args) == 2 and not g.keywords:
-                    a, b = self.ev(env, g.args[0]), self.ev(env, g.args[1])
-                    if a.typ == V and b.typ == V:
-                        return Val(S, "(o.rdot %s %s)" % (self.vec(env, a), self.vec(env, b)))
+                a = self.ev(env, e.args[0])
+                if a.typ == CX:
+                    return Val(S, "(o.rdot %s %s)" % a.pair)
             raise U("`%s` (only xp.real(xp.vdot(u, v)) is an operation of C12.Ops)" % ast.unparse(e)[:60])
         k = key(f)
         if k in env.vars and len(e.args) == 1:
@@ -228,11 +502,17 @@ class Exec:
         op, l, r = e.ops[0], e.left, e.comparators[0]
         a, b = self.ev(env, l), self.ev(env, r)
         if a.typ == I and b.typ == I:
-            sym = {ast.Lt: "<", ast.LtE: "≤", ast.Gt: ">", ast.GtE: "≥", ast.Eq: "=", ast.NotEq: "≠"}.get(type(op))
-            if sym is None:
-                raise U("comparison %s" % ast.unparse(e))
-            return Val(B, "decide (%s %s %s)" % (a.term, sym, b.term))
-        if isinstance(op, ast.LtE) and a.typ == S and isinstance(r, ast.Constant) and r.value == 0 and not isinstance(r.value, bool):
+            if isinstance(op, (ast.Lt, ast.LtE)):
+                return Val(B, bt=cmp_node("<" if isinstance(op, ast.Lt) else "≤", lin_add(b.lin, a.lin, -1)))
+            if isinstance(op, (ast.Gt, ast.GtE)):
+                return Val(B, bt=cmp_node("<" if isinstance(op, ast.Gt) else "≤", lin_add(a.lin, b.lin, -1)))
+            if isinstance(op, (ast.Eq, ast.NotEq)):
+                return Val(B, bt=cmp_node("=" if isinstance(op, ast.Eq) else "≠", lin_add(b.lin, a.lin, -1)))
+            raise U("comparison %s" % ast.unparse(e))
+        if isinstance(op, ast.GtE):        # `0 >= s`, `tol >= sqrt`: the same comparison read from the right
+            op, l, r, a, b = ast.LtE(), r, l, b, a
+        zero = isinstance(r, ast.Constant) and r.value == 0 and not isinstance(r.value, bool)
+        if isinstance(op, ast.LtE) and a.typ == S and zero:
             return Val(B, "(o.nonpos %s)" % a.term)
         if isinstance(op, ast.LtE) and a.typ == SQ and b.typ == S:
             return Val(B, "(o.sqrtLe %s %s)" % (a.term, b.term))
@@ -247,6 +527,10 @@ class Exec:
                 nm = env.fresh(hint or k)
                 env.lines.append("let %s := %s" % (nm, o.term[1:-1] if o.term.startswith("(") else o.term))
                 o.term = nm
+        elif v.typ in (I, B, CX) and not k.startswith("self."):
+            pass                  # a local integer / Boolean / vdot temporary is inlined (it keeps its normal form)
+        elif v.typ == CX:
+            raise U("%s stores a vdot of which the real part has not been taken" % k)
         elif v.typ in (S, SQ, I, B) and not re.fullmatch(r"[A-Za-z_][A-Za-z0-9_.]*|\d+", v.term):
             nm = env.fresh(hint or k)
             t = v.term
@@ -278,8 +562,11 @@ class Exec:
         lines = env.lines = []
         for i, st in enumerate(stmts):
             rest = stmts[i + 1:]
-            src = ast.unparse(st).split("\n")[0]
+            src = getattr(st, "_src", None) or ast.unparse(st).split("\n")[0]
             n0 = len(lines)
+            pre, st2 = self.hoist(env, st)
+            if pre or st2 is not st:
+                return self._tail(lines, self.block(pre + [st2] + rest, env, k))
             if isinstance(st, ast.Expr) and isinstance(st.value, ast.Constant) and isinstance(st.value.value, str):
                 continue
             if isinstance(st, ast.Pass):
@@ -304,7 +591,18 @@ class Exec:
                     continue
                 if tk in ("xp", "self.device", "o", "s", "P_f"):
                     raise U("assignment %s" % src)
+                h = self.helper(env, st.value.func) if isinstance(st.value, ast.Call) else None
+                if h is not None:
+                    def assigned(e, v, tgt=st.targets[0], src=src):
+                        if v is None:
+                            raise U("`%s` uses the value of a helper that returns none" % src)
+                        e.vars["$ret"] = v
+                        a2 = ast.fix_missing_locations(ast.Assign(targets=[tgt], value=ast.Name(id="$ret", ctx=ast.Load())))
+                        a2._src = src
+                        return self.block([a2] + rest, e, k)
+                    return self._tail(lines, self.inline_call(st.value, h, env, assigned, src))
                 self.bind(env, tk, self.ev(env, st.value))
+                env.vars.pop("$ret", None)
             elif isinstance(st, ast.AugAssign):
                 tk = key(st.target)
                 cur = self.ev(env, st.target)
@@ -312,7 +610,7 @@ class Exec:
                     d = self.ev(env, st.value)
                     if d.typ != I:
                         raise U(src)
-                    self.bind(env, tk, Val(I, "(%s %s %s)" % (cur.term, "+" if isinstance(st.op, ast.Add) else "-", d.term)))
+                    self.bind(env, tk, Val(I, lin=lin_add(cur.lin, d.lin, 1 if isinstance(st.op, ast.Add) else -1)))
                 elif cur.typ == V and isinstance(st.op, (ast.Add, ast.Sub)):
                     sc = self.scaled(env, st.value)
                     if sc is None:
@@ -324,13 +622,23 @@ class Exec:
             elif isinstance(st, ast.Expr) and isinstance(st.value, ast.Call):
                 c = st.value
                 cs = ast.unparse(c.func)
-                if cs in ("util.axpy", "util.xpay") and len(c.args) == 3 and not c.keywords:
-                    y, a, x = self.ev(env, c.args[0]), self.ev(env, c.args[1]), self.ev(env, c.args[2])
+                h = self.helper(env, c.func)
+                if h is not None:
+                    return self._tail(lines, self.inline_call(c, h, env, lambda e, v: self.block(rest, e, k), src))
+                if cs in ("util.axpy", "util.xpay"):
+                    params, ex = self.resolve(c, T.find_function(self.w["util"], cs[5:]), False, src)
+                    if params != ["y", "a", "x"]:
+                        raise U("signature of %s: %s" % (cs, params))
+                    y, a, x = self.ev(env, ex[0]), self.ev(env, ex[1]), self.ev(env, ex[2])
                     if (y.typ, a.typ, x.typ) != (V, S, V):
                         raise U("argument types of `%s`" % src)
-                    self.inplace(env, c.args[0], "o.%s %s %s %s" % (cs[5:], self.vec(env, y), a.term, self.vec(env, x)), src)
-                elif cs == "super().__init__" and self.method.endswith("__init__"):
-                    return self._tail(lines, self.inline_super(c, rest, env, k))
+                    self.inplace(env, ex[0], "o.%s %s %s %s" % (cs[5:], self.vec(env, y), a.term, self.vec(env, x)), src)
+                elif cs == "super().__init__" and self.method.endswith("__init__") and not env.frames:
+                    def back(e, v):
+                        if v is not None:
+                            raise U("Alg.__init__ returns a value")
+                        return self.block(rest, e, k)
+                    return self._tail(lines, self.inline_call(c, (T.find_function(self.tree, "Alg.__init__"), True), env, back, src))
                 elif cs == "self._update" and not c.args and not c.keywords and self.method == "Alg.update":
                     nm = env.fresh("s")
                     lines.append("let %s := update_ o A P max_iter %s" % (nm, state_record(self, env, inline=True)))
@@ -350,6 +658,9 @@ class Exec:
         return "\n".join(lines + [tail])
 
     def ret(self, env, st):
+        if env.frames:            # return from an inlined helper
+            none = st.value is None or (isinstance(st.value, ast.Constant) and st.value.value is None)
+            return self.leave(env, None if none else self.ev(env, st.value))
         if self.method.endswith("_done"):
             if st.value is None:
                 raise U("_done returns nothing")
@@ -357,6 +668,7 @@ class Exec:
             if v.typ != B:
                 raise U("_done returns a %s" % v.typ)
             self.shared["leaves"] += 1
+            self.shared["bnodes"][v.term] = v.bt
             return v.term
         if st.value is not None:
             raise U("%s returns a value" % self.method)
@@ -364,14 +676,16 @@ class Exec:
 
     def branch(self, st, rest, env, k):
         src = "-- if %s:" % ast.unparse(st.test)
-        t = st.test
+        t, body, orelse = st.test, st.body, st.orelse
+        while isinstance(t, ast.UnaryOp) and isinstance(t.op, ast.Not):      # `if not c: A else: B` is `if c: B else: A`
+            t, body, orelse = t.operand, orelse, body
         # `self.P is None` / `self.P is not None`
         if isinstance(t, ast.Compare) and len(t.ops) == 1 and isinstance(t.ops[0], (ast.Is, ast.IsNot)) \
                 and key(t.left) is not None and isinstance(t.comparators[0], ast.Constant) and t.comparators[0].value is None:
             pv = self.ev(env, t.left)
             if pv.typ != OF:
                 raise U("`%s` on a %s" % (ast.unparse(t), pv.typ))
-            none_body, some_body = (st.body, st.orelse) if isinstance(t.ops[0], ast.Is) else (st.orelse, st.body)
+            none_body, some_body = (body, orelse) if isinstance(t.ops[0], ast.Is) else (orelse, body)
             if env.psome is not None:  # already known on this path
                 return self.block(some_body if env.psome else none_body, env, lambda e: self.block(rest, e, k))
             en, es = env.copy(), env.copy()
@@ -382,39 +696,113 @@ class Exec:
         c = self.ev(env, t)
         if c.typ != B:
             raise U("condition `%s` is a %s" % (ast.unparse(t), c.typ))
+        node = c.bt
+        if node[0] == "not" or (node[0] == "cmp" and node[1] in ("≤", "≠")):      # canonical polarity: swap the branches
+            node, body, orelse = b_not(node), orelse, body
         et, ee = env.copy(), env.copy()
-        if re.fullmatch(r"(?:[\s\d()<>≤≥=≠+\-*]|decide|s\.iter|max_iter)*", c.term):  # integers of the state only
-            et.path.append(c.term)
-            ee.path.append("!%s" % c.term)
-        tt = self.block(st.body, et, lambda e: self.block(rest, e, k))
-        te = self.block(st.orelse, ee, lambda e: self.block(rest, e, k))
-        cond = c.term[7:] if c.term.startswith("decide (") and _balanced(c.term[7:][1:-1]) else c.term
+        if b_int_only(node):                                                  # the counter and the budget only
+            et.path.append(render_b(node))
+            ee.path.append(render_b(b_not(node)))
+        tt = self.block(body, et, lambda e: self.block(rest, e, k))
+        te = self.block(orelse, ee, lambda e: self.block(rest, e, k))
+        # `_done`: an if / elif / else chain of Boolean returns is the corresponding `or` / `and` chain
+        bn = self.shared["bnodes"]
+        nt, ne = bn.get(_code(tt)), bn.get(_code(te))
+        if nt is not None and ne is not None and not env.frames:
+            if nt[0] == "const":
+                comb = b_join("or", [node, ne]) if nt[1] else b_join("and", [b_not(node), ne])
+            elif ne[0] == "const":
+                comb = b_join("or", [b_not(node), nt]) if ne[1] else b_join("and", [node, nt])
+            else:
+                comb = None
+            if comb is not None:
+                bn[render_b(comb)] = comb
+                return render_b(comb)
+        cond = render_cmp(node) if node[0] == "cmp" else render_b(node)
         if cond.startswith("(") and _balanced(cond[1:-1]):
             cond = cond[1:-1]
         return "if %s then %s\n%s\nelse\n%s" % (cond, src, _indent(tt), _indent(te))
 
-    def inline_super(self, c, rest, env, k):
-        """`super().__init__(args)`: the body of `Alg.__init__` with its parameters bound to the arguments"""
-        fn = T.find_function(self.tree, "Alg.__init__")
-        params = [a.arg for a in fn.args.args]
-        if params[:1] != ["self"] or len(params) - 1 != len(c.args) or c.keywords or fn.args.vararg or fn.args.kwarg:
-            raise U("super().__init__ arguments")
-        vals = [self.ev(env, a) for a in c.args]
-        saved = {kk: v for kk, v in env.vars.items() if not kk.startswith("self.")}
-        for kk in saved:
-            del env.vars[kk]
-        for p, v in zip(params[1:], vals):
-            env.vars[p] = v
-        outer = self.method
+    # ---------------- normalising pre-pass on one statement ----------------
+    def hoist(self, env, st):
+        """(1) `t = a if c else b` is `if c: t = a else: t = b`;  (2) a call to a private helper nested in an
+        expression is computed into a temporary first (`$hn = helper(...)`), which is only allowed when the helper is
+        pure (and, where Python would evaluate it conditionally - `or` / `and` / conditional expression - free of operator
+        applications).  A helper call that IS the right-hand side / the statement is left for `block` to inline."""
+        if isinstance(st, ast.Assign) and isinstance(st.value, ast.IfExp):
+            v = st.value
+            new = ast.If(test=v.test, body=[ast.Assign(targets=st.targets, value=v.body)],
+                         orelse=[ast.Assign(targets=st.targets, value=v.orelse)])
+            return [], ast.fix_missing_locations(new)
+        if isinstance(st, ast.Return) and isinstance(st.value, ast.IfExp):
+            v = st.value
+            new = ast.If(test=v.test, body=[ast.Return(value=v.body)], orelse=[ast.Return(value=v.orelse)])
+            return [], ast.fix_missing_locations(new)
+        if isinstance(st, ast.Assign):
+            slot = "value"
+        elif isinstance(st, ast.AugAssign):
+            slot = "value"
+        elif isinstance(st, ast.Expr):
+            slot = "value"
+        elif isinstance(st, ast.Return) and st.value is not None:
+            slot = "value"
+        elif isinstance(st, ast.If):
+            slot = "test"
+        else:
+            return [], st
+        root = getattr(st, slot)
+        if not any(isinstance(n, ast.Call) and self.helper(env, n.func) is not None for n in ast.walk(root)):
+            return [], st
+        pre = []
 
-        def back(e):
-            for kk in [kk for kk in e.vars if not kk.startswith("self.")]:
-                del e.vars[kk]
-            e.vars.update(saved)
-            self.method = outer
-            return self.block(rest, e, k)
-        self.method = "Alg.__init__"
-        return self.block(list(fn.body), env, back)
+        def visit(e, cond, top=False):
+            if isinstance(e, ast.BoolOp):
+                return ast.BoolOp(op=e.op, values=[visit(x, cond or i > 0) for i, x in enumerate(e.values)])
+            if isinstance(e, ast.IfExp):
+                return ast.IfExp(test=visit(e.test, cond), body=visit(e.body, True), orelse=visit(e.orelse, True))
+            if isinstance(e, (ast.Lambda, ast.ListComp, ast.SetComp, ast.DictComp, ast.GeneratorExp)):
+                return e
+            if isinstance(e, ast.Call):
+                h = self.helper(env, e.func)
+                new = ast.Call(func=e.func if h is not None else visit(e.func, cond),
+                               args=[visit(x, cond) for x in e.args],
+                               keywords=[ast.keyword(arg=kw.arg, value=visit(kw.value, cond)) for kw in e.keywords])
+                if h is None or top:
+                    return new
+                if not self.is_pure(h[0]):
+                    raise U("helper %s changes the state and is called inside the expression `%s`" % (h[0].name, ast.unparse(root)[:60]))
+                if cond and not self.is_simple(h[0]):
+                    raise U("helper %s is called conditionally inside `%s`" % (h[0].name, ast.unparse(root)[:60]))
+                self.shared["nh"] += 1
+                nm = "$h%d" % self.shared["nh"]
+                a2 = ast.Assign(targets=[ast.Name(id=nm, ctx=ast.Store())], value=new)
+                pre.append(a2)
+                return ast.Name(id=nm, ctx=ast.Load())
+            if isinstance(e, ast.AST):
+                kw = {}
+                for f, v in ast.iter_fields(e):
+                    if isinstance(v, list):
+                        kw[f] = [visit(x, cond) if isinstance(x, ast.expr) else x for x in v]
+                    elif isinstance(v, ast.expr):
+                        kw[f] = visit(v, cond)
+                    else:
+                        kw[f] = v
+                return type(e)(**kw)
+            return e
+
+        top = isinstance(st, (ast.Assign, ast.Expr))      # the call is the whole right-hand side / the statement
+        new_root = visit(root, False, top=top)
+        if not pre:
+            return [], st
+        kw = dict(ast.iter_fields(st))
+        kw[slot] = new_root
+        st2 = ast.fix_missing_locations(type(st)(**kw))
+        st2._src = ast.unparse(st).split("\n")[0]
+        return [ast.fix_missing_locations(x) for x in pre], st2
+
+
+def _code(t):
+    return "\n".join(ln for ln in t.split("\n") if not ln.strip().startswith("--")).strip()
 
 
 def _balanced(s):
@@ -482,18 +870,28 @@ def state_record(ex, env, inline=False):
     return "{ %s }" % fields
 
 
-def census(cls):
+def census(cls, alg):
     if [ast.unparse(b) for b in cls.bases] != ["Alg"]:
         raise U("base classes %s" % [ast.unparse(b) for b in cls.bases])
     got = [n.name for n in cls.body if isinstance(n, ast.FunctionDef)]
-    if got != ["__init__", "_update", "_done"]:
-        raise U("methods %s (update/done must be Alg's)" % got)
-    for n in cls.body:
-        if not isinstance(n, ast.FunctionDef) and not (isinstance(n, ast.Expr) and isinstance(n.value, ast.Constant)):
-            raise U("class-level statement %s" % ast.unparse(n)[:60])
+    inherited = [n.name for n in alg.body if isinstance(n, ast.FunctionDef)]
+    # exactly the three entry points; any further method must be a PRIVATE helper (translated where it is called,
+    # dead otherwise) that overrides nothing of Alg
+    extra = [n for n in got if n not in ("__init__", "_update", "_done")]
+    if sorted(n for n in got if n not in extra) != ["__init__", "_done", "_update"] or len(set(got)) != len(got) or any(
+            not n.startswith("_") or n.startswith("__") or n in inherited for n in extra):
+        raise U("methods %s (update/done must be Alg's; helpers must be private)" % got)
+    for c in (cls, alg):
+        for n in c.body:
+            if not isinstance(n, ast.FunctionDef) and not (isinstance(n, ast.Expr) and isinstance(n.value, ast.Constant)):
+                raise U("class-level statement %s" % ast.unparse(n)[:60])
     for n in cls.body:
         if isinstance(n, ast.FunctionDef) and n.decorator_list:
             raise U("decorated method %s" % n.name)
+    need = {"__init__", "_update", "_done", "update", "done"}
+    if not need <= set(inherited) or len(set(inherited)) != len(inherited) or any(
+            not n.startswith("_") or n.startswith("__") for n in inherited if n not in need):
+        raise U("methods of Alg %s" % inherited)
 
 
 def gen_c12(ctx=None):
@@ -501,7 +899,11 @@ def gen_c12(ctx=None):
     cls = T.find_function(tree, "ConjugateGradient")
     if not isinstance(cls, ast.ClassDef):
         raise U("not a class")
-    census(cls)
+    alg = T.find_function(tree, "Alg")
+    if not isinstance(alg, ast.ClassDef):
+        raise U("Alg is not a class")
+    census(cls, alg)
+    world = {"cls": cls, "alg": alg, "util": G._parse("sigpy/util.py")}
     out = ["/- GENERATED by harness/translate/gen_c12.py from sigpy/alg.py (ConjugateGradient.__init__/_update/_done, "
            "Alg.__init__/update) — do not edit; regenerated on every check. -/\n"
            "import SigpyVerif.Model.C12Base\nset_option linter.unusedVariables false\n"
@@ -512,7 +914,7 @@ def gen_c12(ctx=None):
     a = fn.args
     if [x.arg for x in a.args] != ["self", "A", "b", "x", "P", "max_iter", "tol"] or a.vararg or a.kwarg or a.kwonlyargs:
         raise U("__init__ signature %s" % [x.arg for x in a.args])
-    ex = Exec(tree, "ConjugateGradient.__init__", lambda ex, env: state_record(ex, env))
+    ex = Exec(tree, "ConjugateGradient.__init__", lambda ex, env: state_record(ex, env), world)
     env = Env(ex.shared)
     env.vars.update({"A": Val(F, "A"), "P": Val(OF, "P"), "max_iter": Val(I, "max_iter"), "tol": Val(S, "tol"),
                      "b": Val(V, obj=env.new_obj("b", "param:b")), "x": Val(V, obj=env.new_obj("x", "param:x"))})
@@ -526,7 +928,7 @@ def gen_c12(ctx=None):
     fn = T.find_function(cls, "_update")
     if [x.arg for x in fn.args.args] != ["self"]:
         raise U("_update signature")
-    ex = Exec(tree, "ConjugateGradient._update", lambda ex, env: state_record(ex, env))
+    ex = Exec(tree, "ConjugateGradient._update", lambda ex, env: state_record(ex, env), world)
     env = Env(ex.shared)
     for k, (nm, t) in CONSTS.items():
         if t != V:
@@ -552,7 +954,7 @@ def gen_c12(ctx=None):
     fn = T.find_function(tree, "Alg.update")
     if [x.arg for x in fn.args.args] != ["self"]:
         raise U("Alg.update signature")
-    ex = Exec(tree, "Alg.update", lambda ex, env: state_record(ex, env))
+    ex = Exec(tree, "Alg.update", lambda ex, env: state_record(ex, env), world)
     env = Env(ex.shared)
     for k, (nm, t) in CONSTS.items():
         if t != V:
@@ -570,7 +972,7 @@ def gen_c12(ctx=None):
     fn = T.find_function(cls, "_done")
     if [x.arg for x in fn.args.args] != ["self"]:
         raise U("_done signature")
-    ex = Exec(tree, "ConjugateGradient._done", None)
+    ex = Exec(tree, "ConjugateGradient._done", None, world)
     env = Env(ex.shared)
     for k, (nm, t) in CONSTS.items():
         if t != V:
